@@ -435,3 +435,12 @@ Section ReadPath.
     | o :: t => let (r, w1) := run_op w o in let (rs, w2) := run_ops w1 t in (r :: rs, w2)
     end.
 End ReadPath.
+
+(* ICachePool::open creating a NEW store object for a media file that already exists
+   (cache.cpp:77-92: set_actual_size(media st_size)) — after the store's TTL expired, or in a new
+   pool instance over the same directory.  FileCacheStore's constructor rebuilds the filled map
+   from the media file (cache_store.cpp:232-268, SEEK_DATA/SEEK_HOLE: kernel, not modelled; the
+   ideal result — the same set — is assumed here); a new LruEntry has truncate_done = false. *)
+Definition reopen (w : world) : world :=
+  let st := w_st w in
+  set_st w (mkStore (zlen (s_media st)) (s_filled st) (s_media st) false 0).
